@@ -30,4 +30,4 @@ if 'VIOLATION' not in o and 'VIOLATION' in m.get('check_result_quick',''):
 json.dump(m,open(p,'w'),indent=1)
 PY
 done
-./check regen >/dev/null 2>&1
+[ -n "$NO_REGEN" ] || ./check regen >/dev/null 2>&1
